@@ -142,7 +142,7 @@ def run_once(r):
     t = r.tape
     hdr = t.block(24)
     kind = ["csv", "json"][hdr.draw(2)]
-    shape = hdr.weighted(3, 3, 5, 2)  # single, inner join, outer join, distinct
+    shape = hdr.weighted(3, 3, 5, 2, 2)  # single, inner join, outer join, distinct, LOOKUP JOIN over a LIMIT subquery
     outer_kind = hdr.draw(3)
     mode = hdr.pick(MODES)
     nest = hdr.weighted(5, 3, 2, 2, 2)  # top, subquery, subquery + outer limit, with, order only
@@ -156,7 +156,9 @@ def run_once(r):
     max_rows = 6
     # a JSON file without rows has no columns at all (the query would not typecheck): at least one row there
     L = gen_rows(t.block(4 * max_rows + 2), "l", max_rows, 1 if kind == "json" else 0)
-    R = gen_rows(t.block(4 * max_rows + 2), "r", max_rows, 1 if kind == "json" else 0) if shape in (1, 2) else []
+    R = gen_rows(t.block(4 * max_rows + 2), "r", max_rows, 1 if kind == "json" else 0) if shape in (1, 2, 4) else []
+    if shape == 4:
+        nest, big = 5, False
     if big and R:
         R = [("z%d" % i, 0, "f%d" % i) for i in range(400)] + R
     lf, rf = "c05l." + kind, "c05r." + kind
@@ -186,12 +188,20 @@ def run_once(r):
             for i, rr in enumerate(R):
                 if not rmatched[i]:
                     want.append((None, None, None, rr[1], rr[2]))
+    elif shape == 4:
+        # the LIMIT subquery is the joined side: run once per outer record, the first n rows of r every time
+        base = "SELECT l.k AS a, l.v AS b, l.id AS c, x.v AS d, x.id AS e FROM %s l LOOKUP JOIN (SELECT * FROM %s r LIMIT %d) x ON l.k = x.k" % (lf, rf, n)
+        cols = ["a", "b", "c", "d", "e"]
+        for lr in L:
+            for rr in R[:n]:
+                if lr[0] == rr[0]:
+                    want.append((lr[0], lr[1], lr[2], rr[1], rr[2]))
     else:
         base = "SELECT DISTINCT l.k AS a, l.v AS b FROM %s l" % lf
         cols = ["a", "b"]
         want = sorted(set((k, v) for k, v, _ in L))
     ord_ = []
-    if has_order or nest == 4:
+    if (has_order or nest == 4) and nest != 5:
         for c, dsc in ord_draw[:n_ord]:
             c %= len(cols)
             if c not in [o[0] for o in ord_]:
@@ -207,10 +217,12 @@ def run_once(r):
         sql, expect = "SELECT * FROM (%s%s LIMIT %d) x LIMIT %d" % (base, osql, n, n2), min(n2, n, expect)
     elif nest == 3:
         sql, expect = "WITH x AS (%s%s LIMIT %d) SELECT * FROM x x" % (base, osql, n), min(n, expect)
+    elif nest == 5:
+        sql = base
     else:
         sql, top_ordered = base + osql, True
-    attrs = {"mode": mode, "source": kind, "shape": ["single", "inner_join", "outer_join", "distinct"][shape],
-             "nest": ["top", "subquery", "subquery_outer_limit", "with", "order_only"][nest]}
+    attrs = {"mode": mode, "source": kind, "shape": ["single", "inner_join", "outer_join", "distinct", "lookup_join_limit_subquery"][shape],
+             "nest": ["top", "subquery", "subquery_outer_limit", "with", "order_only", "joined_side"][nest]}
     r.log("sql: %s  [-o %s, optimize=%s]" % (sql, mode, optimize))
     r.log("l: %s" % (L,))
     r.log("r: %s%s" % ("400 filler rows + " if big and R else "", R[-max_rows:] if big else R))
